@@ -23,6 +23,7 @@ type evLog struct {
 	fails   func(n int) bool // failure schedule over write attempts (nil = never)
 	n       int              // attempts so far
 	partial bool             // a failing write reports a positive byte count
+	short   bool             // … and the error is io.ErrShortWrite itself
 }
 
 func (l *evLog) take() []wev {
@@ -53,6 +54,9 @@ func (w *plainW) Write(p []byte) (int, error) {
 	w.log.events = append(w.log.events, wev{id: w.id, ok: ok, payload: append([]byte(nil), p...)})
 	if !ok {
 		if w.log.partial {
+			if w.log.short {
+				return len(p) / 2, io.ErrShortWrite
+			}
 			return len(p) / 2, failErr{}
 		}
 		return 0, failErr{}
